@@ -63,7 +63,8 @@ T_Exit == /\ IsEvent("exit")
              /\ IF t \in Client
                 THEN G("exit.client." \o cli[t].op, cli[t].stage = "idle" /\ E.how = "ready")
                 ELSE IF t \in DOMAIN tmr
-                THEN G("exit.timer", tmr[t].st = "ended" /\ E.how = "ready")
+                THEN G(IF act[tmr[t].a].rtaken > 0 /\ tmr[t].inc = act[tmr[t].a].inc THEN "exit.timer.afterrestart" ELSE "exit.timer",
+                       tmr[t].st = "ended" /\ E.how = "ready")
                 ELSE /\ G(IF t \in Actor /\ act[t].pc = "idle" /\ act[t].mq = <<>> /\ ~ChanOpen(t) THEN "exit.loop.closed"      \* left without stopped() after the last drop
                           ELSE IF t \in Actor /\ act[t].pc \in {"stopping", "finishing"} THEN "exit.loop.callback"
                           ELSE "exit.loop", t \in Actor /\ act[t].pc \in {"done", "failed"})
